@@ -26,16 +26,19 @@ class CacheLayer(Layer, ABC):
         return self.__class__.__name__
 
     @staticmethod
-    def _detect_impure(node: TreeNode, name: str):
-        if node.is_leaf:
+    def _detect_impure(node: TreeNode, name: str, visited: set = None):
+        if visited is None:
+            visited = set()
+        if node.is_leaf or node in visited:
             return
+        visited.add(node)
 
         if isinstance(node.edge, ImpureEdge):
             raise ValueError(f'You are trying to cache the field "{name}", '
                              f'which has an `impure` dependency - "{node.name}"')
 
         for parent in node.parents:
-            CacheToStorage._detect_impure(parent, name)
+            CacheToStorage._detect_impure(parent, name, visited)
 
 
 class CacheToStorage(DynamicConnectLayer, CacheLayer):
